@@ -258,14 +258,17 @@ def _limits(mem_gb):
     return f
 
 
-def run_cmd(cmd, cwd, timeout, mem_gb=None, env=None):
+def run_cmd(cmd, cwd, timeout, mem_gb=None, env=None, live_log=None):
+    """live_log: path that receives the output while the command runs (so a long harness can be
+    watched); the output is read back from it afterwards."""
     e = dict(os.environ)
     e["CARGO_NET_OFFLINE"] = "true"
     e.pop("RUSTFLAGS", None)
     if env:
         e.update(env)
     t0 = time.time()
-    p = subprocess.Popen(cmd, cwd=cwd, stdout=subprocess.PIPE, stderr=subprocess.STDOUT, text=True,
+    sink = open(live_log, "w") if live_log else subprocess.PIPE
+    p = subprocess.Popen(cmd, cwd=cwd, stdout=sink, stderr=subprocess.STDOUT, text=True,
                          env=e, preexec_fn=_limits(mem_gb))
     try:
         out, _ = p.communicate(timeout=timeout)
@@ -277,6 +280,9 @@ def run_cmd(cmd, cwd, timeout, mem_gb=None, env=None):
             pass
         out, _ = p.communicate()
         to = True
+    if live_log:
+        sink.close()
+        out = open(live_log, errors="replace").read()
     return p.returncode, out, time.time() - t0, to
 
 
@@ -375,8 +381,8 @@ def kani_cmd(h, extra=()):
 
 def run_harness(scratch, h, logdir, cwd=None):
     cwd = cwd or f"{scratch}/repo"
-    rc, out, wall, to = run_cmd(kani_cmd(h), cwd, h.get("timeout_s", 600), h.get("mem_gb", 8))
-    open(f"{logdir}/{h['name'].split('::')[-1]}.log", "w").write(out)
+    rc, out, wall, to = run_cmd(kani_cmd(h), cwd, h.get("timeout_s", 600), h.get("mem_gb", 8),
+                                live_log=f"{logdir}/{h['name'].split('::')[-1]}.log")
     return classify(h, rc, out, wall, to), out
 
 
